@@ -443,11 +443,14 @@ COMP_TARGETS = {
 # a file with a second top-level profile after the one that carries the file's name (as shipped: atril, man)
 COMP_TWO = ('st-two', 'abi <abi/4.0>,\n\ninclude <tunables/global>\n\n@{exec_path} = @{bin}/st-two\nprofile st-two @{exec_path} {\n  include <abstractions/base>\n\n  @{exec_path} mr,\n\n  /etc/st-two r,\n\n'
             '  include if exists <local/st-two>\n}\n\nprofile st-two-helper @{bin}/st-two-helper {\n  include <abstractions/base>\n\n  /etc/st-two-helper r,\n\n  include if exists <local/st-two-helper>\n}\n')
+COMP_TARGETS['st-guarded'] = ['include <abstractions/base>', '', '@{exec_path} mr,', '', '/etc/st-guarded r,']
 COMP_TARGETS['st-exec-dir'] = ['include <abstractions/base>', '', '@{exec_path} mr,', '', '/etc/st-exec-dir r,', '', '#aa:exec gen-t1']
 # what must / must not be in the output whenever the line is in the host (independent of the real code)
 COMP_EXPECT = {'stack-two': (['/etc/st-two r,', 'include if exists <local/host>'], ['/etc/st-two-helper r,', 'profile st-two-helper @{bin}/st-two-helper {']),
                'stack-ovw': (['/etc/st-ovw r,'], []), 'exec-ovw': (['/{,usr/}{,s}bin/st-ovw Px,'], []),
                'stack-exec-dir': (['/etc/st-exec-dir r,'], ['/{,usr/}{,s}bin/gen-t1 Px,']),       # a stack without X adds no exec transition
+               # (third hunt) a generating directive inside a paragraph that the target's filter removes yields nothing (`~` = substring)
+               'guard-exec': ([], ['~bin/st-guarded Px,']), 'guard-stack': ([], ['/etc/st-guarded r,']), 'guard-dbus': ([], ['~org.example.Guarded']),
                'stack-para': (['/etc/st-para.a r,', '/etc/st-para.b r,', '/etc/st-para.c r,', 'include if exists <local/st-para>'], ['/etc/st-para.guarded r,', '/etc/st-para.guarded2 r,'])}
 COMP_LINES = {
     'stack-dir': '  #aa:stack st-dir',
@@ -466,6 +469,10 @@ COMP_LINES = {
     # directive lines that START with another directive line of this alphabet (a longer bus name, a longer profile name)
     'dbus-sub': '  #aa:dbus own bus=session name=org.example.Host.Sub',
     'exec-bis': '  #aa:exec gen-t1-bis',
+    # generating directives inside a guarded paragraph that this build (arch) drops
+    'guard-exec': '  #aa:only apt\n  #aa:exec st-guarded',
+    'guard-stack': '  #aa:only apt\n  #aa:stack st-guarded',
+    'guard-dbus': '  #aa:exclude arch\n  #aa:dbus own bus=session name=org.example.Guarded',
 }
 
 
@@ -539,9 +546,10 @@ def composition_part(rn, tier, ev, fnd):
         for t in s:
             must, mustnot = COMP_EXPECT.get(t, ([], []))
             lost = [l for l in must if l not in got]
-            kept = [l for l in mustnot if l in got and not (t == 'stack-exec-dir' and 'exec' in s)]     # the host's own `#aa:exec gen-t1` yields that line legitimately
+            kept = [l for l in mustnot if (any(l[1:] in g for g in got) if l.startswith('~') else l in got) and not (t == 'stack-exec-dir' and 'exec' in s)]     # the host's own `#aa:exec gen-t1` yields that line legitimately
             if lost or kept:
-                what = {'stack-para': 'guarded-paragraph-in-stacked-profile', 'stack-exec-dir': 'exec-directive-in-stacked-profile', 'stack-two': 'stacked-file-with-two-profiles'}.get(t, 'target-renamed-by-overwrite')
+                what = {'stack-para': 'guarded-paragraph-in-stacked-profile', 'stack-exec-dir': 'exec-directive-in-stacked-profile', 'stack-two': 'stacked-file-with-two-profiles',
+                        'guard-exec': 'generating-directive-in-a-removed-paragraph', 'guard-stack': 'generating-directive-in-a-removed-paragraph', 'guard-dbus': 'generating-directive-in-a-removed-paragraph'}.get(t, 'target-renamed-by-overwrite')
                 fnd.report('composition-%s lost=%d kept=%d' % (what, bool(lost), bool(kept)),
                            '%s: %s: expected lines %s are lost, lines that must not be there %s are' % (where, what, lost, kept),
                            {'text': comp_host(s), 'out': r['out']})
